@@ -232,8 +232,10 @@ def shape_problem(meta, actual):
             return "fewer digits than the precision"
         got = Fraction(int(t, radix))
         want = abs(v).numerator // abs(v).denominator
-        if abs(got - want) > want * Fraction(1, 2 ** 50):
-            return "numeral does not denote the value"
+        # the numeral has to denote the value: read as a number it must be the same double
+        # (its digits beyond the 53 significant bits are not fixed by the property)
+        if float(got) != float(want):
+            return "numeral does not denote the value (it reads back as %r, the value is %r)" % (float(got), float(want))
         return None
     m = re.fullmatch(r"(\d+)(\.(\d*))?(?:([eE])([-+])(\d{2,}))?", t)
     if not m:
